@@ -24,6 +24,7 @@ Tpl == {
   [t |-> "include", file |-> "a", lines |-> 1],
   [t |-> "include", file |-> "b", lines |-> 1],
   [t |-> "include", file |-> "nofile", lines |-> 1],
+  [t |-> "include", file |-> "p", lines |-> 1],            \* a package-relative name (resolved through the Python path)
   [t |-> "syntax", lines |-> 1] }
 
 TplQuick == {
@@ -32,15 +33,15 @@ TplQuick == {
   [t |-> "block", scope |-> "", sel |-> "u", members |-> << <<"p", L("1")>> >>, lines |-> 2],
   [t |-> "import", module |-> "gvmod_missing", lines |-> 1],
   [t |-> "include", file |-> "a", lines |-> 1], [t |-> "include", file |-> "b", lines |-> 1],
-  [t |-> "include", file |-> "nofile", lines |-> 1], [t |-> "syntax", lines |-> 1] }
+  [t |-> "include", file |-> "nofile", lines |-> 1], [t |-> "include", file |-> "p", lines |-> 1], [t |-> "syntax", lines |-> 1] }
 Skips == { [mode |-> "false", names |-> {}], [mode |-> "true", names |-> {}], [mode |-> "list", names |-> {"u"}] }
-Files3 == {"root", "a", "b"}
-Max3 == [n \in Files3 |-> CASE n = "root" -> 2 [] n = "a" -> 1 [] n = "b" -> 1]
-Max3T == [n \in Files3 |-> CASE n = "root" -> 3 [] n = "a" -> 2 [] n = "b" -> 1]
+Files3 == {"root", "a", "b", "p"}
+Max3 == [n \in Files3 |-> CASE n = "root" -> 2 [] n = "a" -> 1 [] n = "b" -> 0 [] n = "p" -> 1]
+Max3T == [n \in Files3 |-> CASE n = "root" -> 3 [] n = "a" -> 2 [] n = "b" -> 1 [] n = "p" -> 1]
 Locs == <<"", "L1", "L2">>
-Rdrs == <<"r1", "r2">>
+Rdrs == <<"r1", "pkg", "r2">>        \* open(), the Python-path resource reader, a custom reader
 \* root in the current directory; a and b placed so that order matters
-Present1 == { <<"", "r1", "root">>, <<"", "r1", "a">>, <<"", "r1", "b">> }
-Present2 == { <<"", "r1", "root">>, <<"L1", "r2", "a">>, <<"L2", "r1", "a">>, <<"L2", "r2", "b">>, <<"L1", "r1", "b">> }
+Present1 == { <<"", "r1", "root">>, <<"", "r1", "a">>, <<"", "r1", "b">>, <<"", "pkg", "p">> }
+Present2 == { <<"", "r1", "root">>, <<"L1", "r2", "a">>, <<"L2", "r1", "a">>, <<"L2", "r2", "b">>, <<"L1", "r1", "b">>, <<"", "pkg", "p">>, <<"L1", "r2", "p">> }
 Presents == { Present1, Present2 }
 =============================================================================
